@@ -26,6 +26,13 @@ WIDEN_AFTER = 3
 MAX_VISITS = 60
 
 
+# Preconditions a callee relies on without testing them: (argument index, lower bound, description).
+# LzCircularBuffer computes `% dict_size` (last_or) and relies on every construction passing dict_size >= 1.
+PRECONDITIONS = {
+    "decode::lzbuffer::LzCircularBuffer::from_stream": [(1, 1, "dict_size >= 1 (the window computes `% dict_size`)")],
+}
+
+
 class AnalysisError(Exception):
     pass
 
@@ -1728,6 +1735,14 @@ class Interp:
             for x, y in zip(old_ci["ints"], ints):
                 mi.append(None if x is None or y is None else (min(x[0], y[0]), max(x[1], y[1])))
             fr.run.calls[ck] = {"ints": mi, "n": old_ci["n"] + 1, "k": None}
+        # 0. declared preconditions of crate-local callees (obligations, not assumptions)
+        for (ai_, lo_, what) in PRECONDITIONS.get(tname, ()):
+            iv = ints[ai_] if ai_ < len(ints) else None
+            if iv is not None and iv[0] >= lo_:
+                self.record(fr, bb, "pre", "Precondition", what, t.span, "safe", "interval")
+            else:
+                self.record(fr, bb, "pre", "Precondition", what, t.span, "unknown",
+                            "argument %d of %s has range %r" % (ai_, tname, iv))
         # 1. models (by resolved name first, then by declared name)
         m = self.models.get(tname) or self.models.get(name)
         if m is not None:
